@@ -225,6 +225,9 @@ def rich_line(name, v, rnd):
         if varies or r > 0.97:          # many components (more than nine) and subcomponents, also in fields of type varies
             fields.append("^".join("k%d_%d" % (i, j) for j in range(1, 13)) + "^m&n&o~p^q")
             continue
+        if i == 1 and r > 0.9:
+            fields.append("0")          # (a set id of zero)
+            continue
         fields.append("" if r < 0.5 else "a%d" % i if r < 0.7 else "b%d^c%d" % (i, i) if r < 0.8 else "d%d~e%d" % (i, i)
                       if r < 0.86 else "~i%d" % i if r < 0.88 else "j%d~~k%d^l%d" % (i, i, i) if r < 0.9 else "f%d^g%d&h%d" % (i, i, i))
     extra = rnd.choice([[], [], ["x1"], ["", "x2", "y^z"]])
